@@ -6,6 +6,7 @@ use e5_harness::*;
 
 use crate::corpus::*;
 
+#[cfg(stageleft_runtime)]
 /// Map a non-`Ok` verdict to a violation / harness error. `Ok(())` = the body completed.
 pub fn verdict_gate(flow: &str, obs_verdict: &Verdict, out: &mut RunOut) -> bool {
     match obs_verdict {
@@ -29,6 +30,7 @@ pub fn verdict_gate(flow: &str, obs_verdict: &Verdict, out: &mut RunOut) -> bool
     }
 }
 
+#[cfg(stageleft_runtime)]
 fn check_partition(kind: FlowKind, what: &str, ordered: bool, sent: &[Kv], got_per_rec: &[&Vec<Kv>], out: &mut RunOut) {
     let name = kind.name();
     let got: Vec<Kv> = got_per_rec.iter().flat_map(|v| v.iter().copied()).collect();
@@ -59,6 +61,7 @@ fn check_partition(kind: FlowKind, what: &str, ordered: bool, sent: &[Kv], got_p
     }
 }
 
+#[cfg(stageleft_runtime)]
 /// C36 / C31 oracle over the records (outputs) of one instance.
 pub fn check_records(kind: FlowKind, steps: &[Step], obs: &Obs, out: &mut RunOut) {
     let name = kind.name();
@@ -165,6 +168,7 @@ pub fn check_records(kind: FlowKind, steps: &[Step], obs: &Obs, out: &mut RunOut
     }
 }
 
+#[cfg(stageleft_runtime)]
 /// C36 oracle over the scheduler's decision log of one instance.
 pub fn check_log(kind: FlowKind, obs: &Obs, out: &mut RunOut) -> ParsedLog {
     let name = kind.name();
@@ -208,6 +212,7 @@ pub fn check_log(kind: FlowKind, obs: &Obs, out: &mut RunOut) -> ParsedLog {
     pl
 }
 
+#[cfg(stageleft_runtime)]
 pub fn describe(steps: &[Step], obs: &Obs) -> Vec<String> {
     let mut t = vec![format!("workload: {steps:?}")];
     t.push(format!("verdict: {}", obs.verdict.text()));
@@ -219,6 +224,7 @@ pub fn describe(steps: &[Step], obs: &Obs) -> Vec<String> {
     t
 }
 
+#[cfg(stageleft_runtime)]
 pub fn obs_hash(obs: &Obs) -> u64 {
     let mut h = hash_str(FNV0, &obs.log);
     h = hash_str(h, &format!("{:?}{:?}{}", obs.recs, obs.verdict, obs.awaited));
